@@ -22,6 +22,12 @@ def data(seed, n, as_df):
     a = np.column_stack([rng.randn(n) * 3 + 1, rng.randn(n) - 2, rng.randint(0, 3, n).astype(float), rng.randint(0, 2, n).astype(float)])
     if as_df == "int":
         return pd.DataFrame(a, columns=INT_LABELS)        # integer labels that are NOT the positions
+    if as_df == "mixed":
+        # columns of different dtypes: the targeted feature column is integer-typed, its neighbours are floats
+        df = pd.DataFrame(a, columns=["a", "b", "cls", "grp"])
+        df["a"] = np.round(df["a"]).astype("int64")
+        df["cls"] = df["cls"].astype("int64")
+        return df
     return pd.DataFrame(a, columns=["a", "b", "cls", "grp"]) if as_df else a
 
 
@@ -57,7 +63,7 @@ def check(scn):
         except Exception:
             pass
     d = data(seed, n, as_df)
-    A = arr(d).copy()
+    A = arr(d).astype(float).copy()
     np.random.seed(seed)
     x0 = scn.get("x0", 2.0)
     if name == "FeatureSwapInjector":
@@ -257,9 +263,9 @@ def run(tier, seed, repo, focus=None):
     names = ["FeatureSwapInjector", "FeatureShiftInjector", "LabelSwapInjector", "LabelJoinInjector", "BrownianNoiseInjector",
              "LabelProbabilityInjector", "LabelDirichletInjector", "FeatureCoverInjector"]
     for name in names:
-        for as_df in (False, True, "int"):
+        for as_df in (False, True, "int", "mixed"):
             windows = [(a, b) for a in range(n + 1) for b in range(a, n + 1)]
-            if as_df == "int":
+            if as_df in ("int", "mixed"):
                 windows = [(0, n), (2, 5), (3, 3)]
             if name == "FeatureCoverInjector":
                 windows = [(0, n)]
